@@ -12,6 +12,7 @@ import (
 	"sort"
 	"strconv"
 	"sync"
+	"sync/atomic"
 	"time"
 
 	"github.com/gethiox/HIDI/internal/pkg/logger"
@@ -209,8 +210,17 @@ func cmdParse(args []string) error {
 	w := bufio.NewWriterSize(f, 1<<20)
 	defer w.Flush()
 	enc := json.NewEncoder(w)
+	timeouts := 0
 	for _, c := range cases {
+		if timeouts >= 3 {
+			// the parser is wedged (every call hangs): the remaining cases would only repeat the same verdict
+			enc.Encode(parseLine{Ev: "parse", ID: c.ID, Kind: c.Kind, Outcome: "timeout", Msg: "skipped: three earlier calls did not return"})
+			break
+		}
 		r := parseWatched([]byte(c.Toml), 5*time.Second)
+		if r.outcome == "timeout" {
+			timeouts++
+		}
 		l := parseLine{Ev: "parse", ID: c.ID, Kind: c.Kind, Outcome: r.outcome, Msg: r.msg, Desc: c.Desc}
 		if r.cfg != nil && len(c.Desc) > 0 {
 			l.Proj = project(r.cfg)
@@ -251,8 +261,15 @@ func cmdParseFuzz(args []string) error {
 	counts := map[string]int{}
 	logged := 0
 	id := 0
+	var wedged int32
 	try := func(kind string, data []byte) {
+		if atomic.LoadInt32(&wedged) >= 3 {
+			return
+		}
 		r := parseWatched(data, 5*time.Second)
+		if r.outcome == "timeout" {
+			atomic.AddInt32(&wedged, 1)
+		}
 		mu.Lock()
 		defer mu.Unlock()
 		id++
